@@ -979,6 +979,16 @@ def pointwise_advanced(shape, legs, adv_pos, adv_axes):
     return shape2, legs2
 
 
+def may_repeat(vecs):
+    """can the tuples (I1[t], I2[t], ...) formed by the index vectors coincide for two different t?  False (provably not) / True (they do) / None (nothing known)"""
+    if any(affine_index(x) is not None or (isinstance(x, Arr) and x.tags.get('unique')) for x in vecs):
+        return False                  # one strictly increasing / duplicate-free component makes the tuples distinct
+    if all(isinstance(x, IntVec) and all(isinstance(v, int) for v in x) for x in vecs):
+        pts = list(zip(*vecs))
+        return len(set(pts)) < len(pts)
+    return None
+
+
 def affine_index(x):
     """(start, length) if the index vector x is start + arange(length), else None"""
     if isinstance(x, IntVec):
@@ -1076,6 +1086,8 @@ def getitem(a, idx):
             tags['orth'] = 'RO'
     r = Arr(shape, legs, a.dt, a.buf if view else None, tags, 'getitem')
     r.tags['sel_of'] = (a, tuple(sel))
+    if adv:
+        r.tags['gathered'] = (a.buf.uid, tuple(id(x) for x in adv))          # a copy gathered through index arrays (see setitem: buffered in-place updates)
     m_ = a.tags.get('mx')
     if m_ is not None and len(m_) == 1 and a.ndim in (1, 2) and not any(x is None for x in idx):
         k_, u_, op_, s_ = m_[0]
@@ -1172,6 +1184,13 @@ def setitem(a, idx, v):
         return          # x[sel] op= y : the in-place operation on the view has already been recorded; storing the view back is a no-op
     idx = expand_index(a, idx)
     vecs = [(pos, x) for pos, x in enumerate(idx) if (isinstance(x, Arr) and x.ndim >= 1) or isinstance(x, list)]
+    if vecs and isinstance(v, Arr) and v.tags.get('gathered') == (a.buf.uid, tuple(id(x) for _, x in vecs)) and v.buf.writes:
+        # a[I, J] op= w : NumPy gathers a[I, J] into a temporary, applies the operation there and scatters the temporary back -- for an index tuple that occurs
+        # several times only the LAST contribution survives (unlike np.<ufunc>.at).  Harmless iff the index tuples cannot repeat.
+        rep = may_repeat([x for _, x in vecs])
+        if rep is not False:
+            CTX.event('lost-update', target=a, certain=bool(rep), detail=('an index tuple occurs more than once in' if rep else 'nothing keeps the index tuples from repeating in')
+                      + ' a buffered in-place update through index arrays (a[I, J] op= w): only the last contribution to a repeated position survives; np.<ufunc>.at accumulates all of them')
     if len(vecs) >= 2 and all((isinstance(x, Arr) and x.ndim == 1) or isinstance(x, IntVec) for _, x in vecs):
         # a[I1, ..., I2] = v with index vectors of one length n is the loop  for j in range(n): a[I1[j], ..., I2[j]] = v[j]
         point_store(a, idx, vecs, v, None)
@@ -1297,6 +1316,23 @@ def adopt_legs(a, idx, sel, v):
 
 
 # ------------------------------------------------------------------------------------------------ contractions
+def _view_root(x):
+    """(the array `x` is a conjugated / transposed / reshaped / copied view of, parity of the conjugations on the way)"""
+    par, n = 0, 0
+    while isinstance(x, Arr) and x.parents and n < 12 and (x.origin in ('conj', 'transpose', 'copy') or x.tags.get('is_reshape')):
+        if x.origin == 'conj':
+            par ^= 1
+        x = x.parents[0]
+        n += 1
+    return x, par
+
+
+def _self_inner_product(a, b):
+    ra, pa = _view_root(a)
+    rb, pb = _view_root(b)
+    return ra is rb and pa != pb
+
+
 def check_contract(a, b, ax_a, ax_b, what):
     for i, j in zip(ax_a, ax_b):
         if not sz_eq(a.shape[i], b.shape[j]):
@@ -1312,6 +1348,8 @@ def check_contract(a, b, ax_a, ax_b, what):
             continue
         for x, y in zip(ga, gb):
             why = can_contract(x, y)
+            if why and 'one side is complex-conjugated' in why and _self_inner_product(a, b):
+                continue        # X^H X: an array contracted with its own conjugate over the same index (a Gram matrix / norm), not two ends of one bond
             if why:
                 CTX.event('contract-type-error', a=a, b=b, axes=(i, j), detail=f'{what}: {why}')
     CTX.event('contract', a=a, b=b, axes=(tuple(ax_a), tuple(ax_b)), what=what)
